@@ -280,27 +280,60 @@ impl<'a> Walker<'a> {
                     }
                 }
                 Rw::IndexConst => {
-                    // `X = k; S` where S indexes by X: use the constant
+                    // `X = k; S; T` where S, T index by X: use the constant. S and T are expression
+                    // statements or the condition of an `if`; the scan stops at the first statement
+                    // that is neither, or that writes the register.
                     if i + 1 < v.len() {
                         if let Stmt::Expr(Expr::Assign(None, LValue::Var(r), k)) = &v[i] {
                             if (r == "X" || r == "Y") && matches!(**k, Expr::Lit(_, _)) {
-                                if let Stmt::Expr(next) = &v[i + 1] {
+                                let uses = |e: &Expr| -> bool {
                                     let mut has = false;
-                                    crate::excl::walk(next, &mut |x| {
-                                        if let Expr::Lv(LValue::Index(_, idx)) | Expr::Assign(_, LValue::Index(_, idx), _) = x {
+                                    crate::excl::walk(e, &mut |x| {
+                                        if let Expr::Lv(LValue::Index(_, idx)) | Expr::Assign(_, LValue::Index(_, idx), _) | Expr::IncDec(_, _, LValue::Index(_, idx)) = x {
                                             if matches!(&**idx, Expr::Lv(LValue::Var(q)) if q == r) {
                                                 has = true;
                                             }
                                         }
                                     });
-                                    if has && self.hit() {
-                                        let r = r.clone();
-                                        let k = (**k).clone();
-                                        if let Stmt::Expr(next) = &mut v[i + 1] {
-                                            replace_index(next, &r, &k);
-                                        }
-                                        return;
+                                    has
+                                };
+                                let writes = |e: &Expr| -> bool {
+                                    let mut w = false;
+                                    crate::excl::walk(e, &mut |x| match x {
+                                        Expr::Assign(_, LValue::Var(q), _) | Expr::IncDec(_, _, LValue::Var(q)) if q == r => w = true,
+                                        Expr::Call(_, _) => w = true,
+                                        _ => {}
+                                    });
+                                    w
+                                };
+                                let mut targets = vec![];
+                                for j in i + 1..(i + 3).min(v.len()) {
+                                    let e = match &v[j] {
+                                        Stmt::Expr(e) => e,
+                                        Stmt::If(c, _, _) => c,
+                                        _ => break,
+                                    };
+                                    if writes(e) {
+                                        break;
                                     }
+                                    if uses(e) {
+                                        targets.push(j);
+                                    }
+                                    if matches!(&v[j], Stmt::If(..)) {
+                                        break;
+                                    }
+                                }
+                                if !targets.is_empty() && self.hit() {
+                                    let r = r.clone();
+                                    let k = (**k).clone();
+                                    for j in targets {
+                                        match &mut v[j] {
+                                            Stmt::Expr(e) => replace_index(e, &r, &k),
+                                            Stmt::If(c, _, _) => replace_index(c, &r, &k),
+                                            _ => {}
+                                        }
+                                    }
+                                    return;
                                 }
                             }
                         }
@@ -467,7 +500,7 @@ pub fn rewrite(p: &Program, rw: Rw, target: Option<u32>) -> (u32, Option<Program
 }
 
 pub fn cfg() -> GenCfg {
-    GenCfg { max_helpers: 2, max_stmts: 6, ..GenCfg::default() }
+    GenCfg { max_helpers: 2, max_stmts: 6, simple_helper_permille: 500, ..GenCfg::default() }
 }
 
 pub fn check(case: &Case, st: &mut Stats, ex: &Excl) -> Result<(), String> {
@@ -545,8 +578,12 @@ pub fn run(ctx: &mut RunCtx) -> i32 {
         ctx.shards,
         cases,
         3000,
-        |_| {
-            let cfg = cfg.clone();
+        |shard| {
+            let mut cfg = cfg.clone();
+            if shard % 4 == 3 {
+                cfg.split_permille = 300;
+                cfg.split_qual = if shard % 8 == 3 { MemQual::Superchip } else { MemQual::Bank(1) };
+            }
             pbt::strategy(move |g| {
                 // pick a rewrite that has a site in the generated program (retry a few times)
                 let mut sem_case = sem::gen_case(g, &cfg, n_inits, &[0, 1], false);
